@@ -54,6 +54,24 @@ Theorem C14_abf_czar_gather : forall (A : Type) (G : GrpOps A), GrpLaws G ->
 Proof. exact @czar_gather_sum. Qed.
 Print Assumptions C14_abf_czar_gather.
 
+(* replica_share_CZAR() runs between exchanges (from write_output_files): it must leave global, snapshot and local
+   grids and the z grids of every walker untouched, whatever they hold; only replica 0's gathered grids change,
+   to the sum of all z grids. *)
+Theorem C14_abf_czar_gather_frame : forall (A : Type) (G : GrpOps A), GrpLaws G -> forall (ws : list (ewalker (A:=A))),
+  map e_w (czar_gather_step G ws) = map e_w ws /\ map e_z (czar_gather_step G ws) = map e_z ws /\
+  (forall r others j, ws = r :: others ->
+     exists r', czar_gather_step G ws = r' :: others /\ e_gz r' j = msum G (map e_z ws) j).
+Proof. exact @czar_gather_frame. Qed.
+Print Assumptions C14_abf_czar_gather_frame.
+
+(* A restart through a state file of the repaired code (last_* saved) is the identity on the three grids, at any
+   point of a run -- which is why C14_abf_union_once and C14_abf_interleavings_union_once quantify over traces with
+   ERestart / ARestart ANYWHERE, not only at exchange boundaries. *)
+Theorem C14_abf_restart_identity : forall (A : Type) t (w : walker (A:=A)),
+  wG (w_restart t w) = wG w /\ wL (w_restart t w) = wL w /\ wLoc (w_restart t w) = wLoc w.
+Proof. exact @restart_identity. Qed.
+Print Assumptions C14_abf_restart_identity.
+
 (* Walkers that hold the same shared_last_step agree on which steps are exchange steps, and an exchange
    leaves all of them with the same shared_last_step (no walker waits for a round the others skip). *)
 Theorem C14_abf_exchange_points_agree : forall (A : Type) (G : GrpOps A) freq t t' (ws : list (walker (A:=A))) w w',
@@ -109,22 +127,26 @@ Print Assumptions C14_abf_union_once_before_repair_refuted.
 
 (* ---- file-based multiple-walker metadynamics: one peer (writer) and one reader; a trace is any
    interleaving of the peer's deposits, of what the reader can see of the peer's hills file (any prefix) and of
-   its state file (all of it, or a proper prefix), of the peer's state-file rewrites -- as one event or as their
+   its state file (all of it, or a proper prefix), of its record in the registry and of its list file (nothing, all,
+   or cut inside a file name: PRVis, PLVis), of the peer's state-file rewrites -- as one event or as their
    two halves, hills file restarted (PWStateB) then state file renamed (PWStateA) -- and restarts (with or
    without a new output prefix), and of the reader's exchanges, own state-file writes and restarts.
-   trace_ok true = the peer numbers its own steps sensibly (hills later than the state file in place; state
-   files not earlier than their hills) and performs the two halves in the order of the repaired code.
+   trace_ok true = the peer numbers its own steps sensibly (hills not before the state file in place; state files
+   not earlier than their hills, and later than the previous one unless nothing was deposited in between) and
+   performs the two halves in the order of the repaired code.
    NOTHING is assumed of the reader: it may exchange at any moment, also between the two halves. *)
 
 (* Whatever the interleaving: the hills the reader holds for the peer are a prefix of the peer's deposited
    sequence (no loss inside, no duplicate, in order); and right after each exchange of the reader with a
-   registered peer, everything visible of the peer (state file, if all of it is visible, + complete visible
-   records) is in it; a partly visible state file leaves what the reader holds untouched. *)
+   registered peer whose registry record and list file are all there, everything visible of the peer (state file,
+   if all of it is visible, + complete visible records) is in it -- whatever was half-written before; a partly
+   visible state file leaves what the reader holds untouched.  (The first part holds with any registry record and
+   list file: a name cut short only means that nothing can be read.) *)
 Theorem C14_meta_prefix :
   (forall es w m, trace_ok true true true es pinit = true ->
      prun true true es pinit = (w, Some m) -> prefix (m_cont m) (w_D w)) /\
   (forall es w om, trace_ok true true true (es ++ [RShare]) pinit = true ->
-     prun true true (es ++ [RShare]) pinit = (w, om) -> w_reg w = true ->
+     prun true true (es ++ [RShare]) pinit = (w, om) -> w_reg w = true -> w_rv w = 2 -> w_lv w = 2 ->
      exists m, om = Some m /\ prefix (visible w) (m_cont m) /\ prefix (m_cont m) (w_D w) /\
                (w_sok w = true -> m_sync m = true) /\
                (w_sok w = false -> m_cont m = cont_of (prun true true es pinit))).
@@ -149,17 +171,16 @@ Print Assumptions C14_meta_all_walkers_prefix.
 
 Theorem C14_meta_all_walkers_complete : forall n es r p, sys_ok n (es ++ [SShare r]) = true -> (r < n)%nat -> (p < n)%nat -> r <> p ->
   let st := pair_of (sys_run (es ++ [SShare r]) (sys_init n)) r p in
-  w_reg (fst st) = true ->
+  w_reg (fst st) = true -> w_rv (fst st) = 2 -> w_lv (fst st) = 2 ->
   exists m, snd st = Some m /\ prefix (visible (fst st)) (m_cont m) /\ prefix (m_cont m) (w_D (fst st)).
 Proof. exact sys_share_complete. Qed.
 Print Assumptions C14_meta_all_walkers_complete.
 
 (* A peer's (re)read state file replaces, never adds to, what was read before: for ANY previous mirror
    content and read position the result is the state file plus the visible later records. *)
-Theorem C14_meta_restart : forall w m, w_reg w = true -> w_sok w = true ->
-  (m_sync m = false \/ m_has m = false \/ name_is (m_name m) (w_name w) = false \/
-   (m_S m <> sf_step (w_state w) /\ m_has m = true)) ->
-  exists m', share true true w (Some m) = Some m' /\
+Theorem C14_meta_restart : forall w m k0, m_name m = Some k0 -> m_hf m = 2 -> w_sok w = true ->
+  (m_sync m = false \/ m_has m = false \/ (m_S m <> sf_step (w_state w) /\ m_has m = true)) ->
+  let m' := share_read true true w m in
     m_cont m' = sf_hills (w_state w) ++
                 filter (keep (sf_step (w_state w))) (firstn (Z.to_nat (w_vis w)) (w_file w)) /\
     m_S m' = sf_step (w_state w) /\ m_pos m' = Z.max 0 (w_vis w).
@@ -226,9 +247,25 @@ Example C14_ex_all_walkers : sys_ok 3 ex_sys = true /\
   = [[H 1; H 3]; [H 1; H 3]; [H 2]; [H 1]].
 Proof. exact ex_sys_ok. Qed.
 
+(* stepZeroData: a hill deposited at the very step of the state file that setup_output has just written *)
+Example C14_ex_meta_step_zero_hill :
+  trace_ok true true true [PSetup 4 false; PDeposit (H 4); PVis 1; RShare] pinit = true /\
+  cont_of (prun true true [PSetup 4 false; PDeposit (H 4); PVis 1; RShare] pinit) = [H 4].
+Proof. vm_compute. auto. Qed.
+
 Example C14_ex_meta_restart : let w := fst (prun true true meta_w2 pinit) in
-  w_reg w = true /\ w_sok w = true /\ exists m, m_sync m = false.
-Proof. split; [vm_compute; reflexivity|]. split; [vm_compute; reflexivity|]. exists m_new. reflexivity. Qed.
+  w_reg w = true /\ w_sok w = true /\ w_rv w = 2 /\ w_lv w = 2 /\
+  exists m, m_name m = Some 0 /\ m_hf m = 2 /\ m_sync m = false.
+Proof. repeat (split; [vm_compute; reflexivity|]). exists (mkM (Some 0) false false 0 0 [] true 2). auto. Qed.
+
+(* half-written registry record and list file: nothing is read until they are complete, then everything is *)
+Example C14_ex_meta_half_written_names :
+  let t1 := [PSetup 0 false; PDeposit (H 1); PVis 1; PRVis 7; RShare] in
+  let t2 := t1 ++ [PRVis 2; PLVis 5; RShare] in
+  let t3 := t2 ++ [PLVis 2; RShare] in
+  trace_ok true true true t3 pinit = true /\
+  cont_of (prun true true t1 pinit) = [] /\ cont_of (prun true true t2 pinit) = [] /\ cont_of (prun true true t3 pinit) = [H 1].
+Proof. vm_compute. auto. Qed.
 
 (* a 3-walker execution in which walker 1 enters the round first and walkers 0 and 2 go on sampling meanwhile *)
 Example C14_ex_interleaving : match srun Zgrp ex_acts (sinit Zgrp 3) with
